@@ -186,7 +186,107 @@ def _formula_cases(tier, rng):
     ]
 
 
+# ------------------------------------------------------------------------------------ bounded: faults injected into a workbook
+HEALTHY = {'A1': 7, 'A2': 3, 'C1': '=A1+A2', 'C2': '=A1+DATA!Z99', 'C3': "='[ext.xlsx]DATA'!A1+1", 'C4': '=SUM(A1:A2)', 'C5': '=IF(A1>5,"big","small")'}
+FAULTS = [
+    ("='Nope'!A1", ('#REF!',)),                      # absent sheet of the main workbook
+    ("='[ext.xlsx]Zed'!A1", ('#REF!',)),             # absent sheet of a readable linked workbook
+    ("='[gone.xlsx]S'!A1", ('#REF!',)),              # absent workbook file
+    ('=NOSUCHFN(A1)', ('#NAME?',)),                  # unknown function
+    ('=_xlfn.FUTUREFN(A1,2)', ('#NAME?',)),          # unknown function with the _xlfn. prefix
+    ('=UNDEFINED_NAME+1', ('#REF!', '#NAME?')),      # undefined name
+]
+
+
+def _fault_cases(tier, rng):
+    n = len(FAULTS)
+    return [('faults', mask) for mask in range(1 << n)]
+
+
+_BASELINE = {}
+
+
+def _run_book(mask):
+    import logging
+    import os
+    import shutil
+    import tempfile
+    import numpy as np
+    import openpyxl
+    import formulas
+    logging.disable(logging.CRITICAL)
+    d = tempfile.mkdtemp(prefix='verif_c14_')
+    try:
+        ext = openpyxl.Workbook()
+        ext.active.title = 'DATA'
+        ext.active['A1'] = 42
+        ext.save(os.path.join(d, 'ext.xlsx'))
+        wb = openpyxl.Workbook()
+        ws = wb.active
+        ws.title = 'DATA'
+        for ref, v in HEALTHY.items():
+            ws[ref] = v
+        for k, (text, _) in enumerate(FAULTS):
+            if mask >> k & 1:
+                ws['F%d' % (k + 1)] = text
+                ws['G%d' % (k + 1)] = '=IFERROR(F%d,"caught")' % (k + 1)
+                ws['H%d' % (k + 1)] = '=ISERROR(F%d)' % (k + 1)
+                ws['I%d' % (k + 1)] = '=F%d+A1' % (k + 1)
+        path = os.path.join(d, 'main.xlsx')
+        wb.save(path)
+        m = formulas.ExcelModel().loads(path).finish()
+        sol = m.calculate()
+        vals = {}
+        for k, v in sol.items():
+            ks = str(k).upper()
+            if ks.startswith("'[MAIN.XLSX]DATA'!") and hasattr(v, 'value') and ':' not in ks.split('!')[-1]:
+                vals[ks.split('!')[-1]] = np.asarray(v.value, object).ravel()[0]
+        return vals
+    finally:
+        logging.disable(logging.NOTSET)
+        shutil.rmtree(d, ignore_errors=True)
+
+
+def _check_faults(case):
+    """Every subset of the six faults injected into one workbook: loading, completion and calculation succeed; the cells
+    that do not depend on a fault keep the value they have in the fault-free workbook; a faulty cell holds an ordinary error
+    value which IFERROR / ISERROR intercept and which propagates through arithmetic."""
+    from formulas.tokens.operand import XlError
+    _, mask = case
+    try:
+        if 0 not in _BASELINE:
+            _BASELINE[0] = _run_book(0)
+        base = _BASELINE[0]
+        vals = base if mask == 0 else _run_book(mask)
+    except Exception as ex:
+        return 'faults %s: loading / calculation raised %s: %s' % (_names(mask), type(ex).__name__, str(ex)[:120])
+    want = {'C1': 10, 'C2': 7, 'C3': 43, 'C4': 10, 'C5': 'big'}
+    for ref, w in want.items():
+        g = vals.get(ref)
+        if isinstance(g, XlError) or g is None or not (g == w):
+            return 'faults %s: healthy cell %s = %s shows %r, without the faults it is %r' % (_names(mask), ref, HEALTHY[ref], g, w)
+    for k, (text, errs) in enumerate(FAULTS):
+        if not (mask >> k & 1):
+            continue
+        f, g, h, i_ = (vals.get('%s%d' % (c, k + 1)) for c in 'FGHI')
+        if not (isinstance(f, XlError) and str(f) in errs):
+            return 'faults %s: %s evaluates to %r, expected %s' % (_names(mask), text, f, ' or '.join(errs))
+        if g != 'caught' or h is not True and h != True:
+            return 'faults %s: IFERROR / ISERROR over %s give %r / %r' % (_names(mask), text, g, h)
+        if not isinstance(i_, XlError):
+            return 'faults %s: %s + A1 is %r, expected the error to propagate' % (_names(mask), text, i_)
+    return None
+
+
+def _names(mask):
+    return [FAULTS[k][0] for k in range(len(FAULTS)) if mask >> k & 1]
+
+
 BOUNDED = [
+    Stage('B2:every-subset-of-faults-injected-into-a-workbook', 'C14', _fault_cases, _check_faults,
+          'all 64 subsets of 6 faults (absent sheet, absent sheet of a readable linked workbook, absent file, unknown function, _xlfn. '
+          'function, undefined name) injected into a workbook with a linked workbook: loads and calculates, healthy cells keep their values, '
+          'faulty cells hold an error that IFERROR / ISERROR intercept and arithmetic propagates', parallel=True, weight=lambda c: 1),
     Stage('B1:single-formulas-with-unresolved-items', 'C14', _formula_cases, _check_formula,
           '15 formulas with unknown functions (incl. _xlfn.), undefined names and #REF! literals, bare and under IFERROR / ISERROR / IF',
           parallel=False),
@@ -199,8 +299,10 @@ PROPERTIES = {
             'Partial. Proved: an unknown name maps to a callable that always raises NotImplementedError; the formula dispatcher lets '
             'exactly NotImplementedError / RangeValueError / InvalidRangeError pass; the cell wrapper turns a dispatcher error caused by '
             'NotImplementedError into #NAME? and propagates everything else unchanged. Tables: the default of the function table, the '
-            'two recovery handlers of ExcelModel.complete (read from the AST). Bounded: single formulas with unresolved items.'),
+            'two recovery handlers of ExcelModel.complete (read from the AST). Bounded: single formulas with unresolved items; every subset of six '
+            'faults (absent sheet, absent sheet of a linked workbook, absent file, unknown function, _xlfn. function, undefined name) injected '
+            'into one workbook: it loads and calculates, healthy cells keep their fault-free values, faulty cells hold interceptable errors.'),
         assumptions=['schedula wraps an exception of a node function into DispatcherError(ex=...) when raises(ex) is true (assumed)'],
-        not_proved=['locality across the workbook (every unaffected cell keeps its value): whole-model, not decided'],
+        not_proved=['locality across the workbook (every unaffected cell keeps its value): whole-model - bounded stage B2 only (one workbook shape, 64 fault subsets)'],
     ),
 }
